@@ -200,17 +200,35 @@ Section State.
           end
     end.
 
-  (** state.rs:336 [promote] *)
+  (** the three actor checks of [modify], used by [promote]/[demote] on their no-op path
+      (state.rs [check_manager], added by "fix: check the actor's authority before the no-op
+      shortcut of promote/demote") *)
+  Definition check_manager (s : State C) (actor : N) : option MembershipError :=
+    match lookup actor s with
+    | None => Some UnrecognisedActor
+    | Some st =>
+        if negb (is_member st) then Some InactiveActor
+        else if negb (is_manager st) then Some InsufficientAccess
+        else None
+    end.
+
+  (** state.rs [promote] *)
   Definition promote (s : State C) (promoter promoted : N) (a : Access C) : result (State C) :=
     match lookup promoted s with
-    | Some m => if is_manager m then Ok s else modify s promoter promoted a
+    | Some m =>
+        if is_manager m
+        then match check_manager s promoter with Some e => Err e | None => Ok s end
+        else modify s promoter promoted a
     | None => Err UnrecognisedMember
     end.
 
-  (** state.rs:364 [demote] *)
+  (** state.rs [demote] *)
   Definition demote (s : State C) (demoter demoted : N) (a : Access C) : result (State C) :=
     match lookup demoted s with
-    | Some m => if is_puller m then Ok s else modify s demoter demoted a
+    | Some m =>
+        if is_puller m
+        then match check_manager s demoter with Some e => Err e | None => Ok s end
+        else modify s demoter demoted a
     | None => Err UnrecognisedMember
     end.
 
